@@ -79,15 +79,15 @@ def first_diff(a, b, path=""):
 
 
 def diff_class(d):
-    """mechanism class of a difference (path without indices / contract names)"""
+    """mechanism class of a difference: kind of difference and the field it concerns"""
     import re
-    p = d.split(":")[0]
-    p = re.sub(r"\[\d+\]", "[]", p)
-    p = re.sub(r"/contracts/[^/]+(/[^/]+\.sol:[^/]+)?", "/contracts/*", p)
-    tail = d.split(": ", 1)[1] if ": " in d else ""
-    kind = "missing" if "missing" in tail else "extra" if "only in" in tail else "length" if "length" in tail else "value"
-    last = p.split("/")[-1]
-    return "%s at .../%s" % (kind, last)
+    path, _, tail = d.rpartition(": ")
+    kind = "missing" if "missing" in tail else "extra" if "only in" in tail else "length" if "length" in tail else \
+        "type" if tail.startswith("type") else "value"
+    last = re.sub(r"\[\d+\]", "[]", path.split("/")[-1])
+    if re.fullmatch(r"[0-9A-Fa-f]{40,}", last):
+        last = "<hash key>"
+    return "%s at field %s" % (kind, last)
 
 
 def check_document(doc, push0, viols, label):
